@@ -4,5 +4,5 @@ D=$1; P=$2; N=${3:-1500}
 W=$(mktemp -d /tmp/tm-XXXXXX); rmdir $W
 git -C /repo worktree add -q --detach $W HEAD || exit 2
 (cd $W && { git apply $D 2>/dev/null || git apply -3 $D >/dev/null 2>&1; }) || { echo "PATCH DOES NOT APPLY"; git -C /repo worktree remove --force $W; exit 2; }
-VERIF_REPO=$W /verif/dev.sh $P 0 $N 0 2>&1 | tail -1 | cut -c1-600
+VERIF_REPO=$W AVOID="$AVOID" /verif/dev.sh $P 0 $N 0 2>&1 | tail -1 | cut -c1-600
 git -C /repo worktree remove --force $W
